@@ -1168,6 +1168,7 @@ func (w *World) execRead(op *Op) bool {
 		if strings.Join(got, "\x00") != strings.Join(want, "\x00") || len(got) != len(want) {
 			w.failf("names", "GetCollectionNames = %q, model %q", got, want)
 		}
+		scribble(got)
 		return true
 	}
 	c, mc := w.collFor(h, op.C, !h.snap)
@@ -1342,12 +1343,24 @@ func (w *World) checkLive() {
 	}
 }
 
+// scribble overwrites a slice the store returned to its caller: the result
+// belongs to the caller, so nothing the store answers later may depend on it.
+func scribble(names []string) {
+	for i, j := 0, len(names)-1; i < j; i, j = i+1, j-1 {
+		names[i], names[j] = names[j], names[i]
+	}
+	for i := range names {
+		names[i] += "~"
+	}
+}
+
 func (w *World) checkStore(tag string, h *Handle) {
 	got := h.st.GetCollectionNames()
 	want := h.m.Names()
 	if len(got) != len(want) || strings.Join(got, "\x00") != strings.Join(want, "\x00") {
 		w.failf("names", "%s: collection names %q, model %q", tag, got, want)
 	}
+	scribble(got)
 	for _, name := range want {
 		c := h.st.GetCollection(name)
 		if c == nil {
